@@ -223,7 +223,8 @@ func buildSchema() (*graphql.Schema, error) {
 			return nil
 		},
 		VariableValueCoercion: func(v interface{}) interface{} { return v },
-		ResultCoercion:        func(v interface{}) interface{} { return v },
+		// an application's scalar must produce something serialisable: this one prints the value
+		ResultCoercion: func(v interface{}) interface{} { return fmt.Sprintf("%v", v) },
 	}
 	in := &graphql.InputObjectType{Name: "In"}
 	in.Fields = map[string]*graphql.InputValueDefinition{
